@@ -104,6 +104,11 @@ let dispatch op args = match op, args with
       (match hash_eq (zl k1) (zl v1) (oz s1) (oz m1) (zl k2) (zl v2) (oz s2) (oz m2) with
        | None -> L [N; N]
        | Some (a, b) -> L [I (if a then Zpos XH else Z0); I (if b then Zpos XH else Z0)])
+  | "hash_add", [k1; v1; s1; k2; v2; s2; m] ->
+      let pairs l = L (List.map (fun (k, v) -> L [I k; I v]) l) in
+      (match hash_add (zl k1) (zl v1) (oz s1) (zl k2) (zl v2) (oz s2) (oz m) with
+       | None -> L [N; N]
+       | Some (a, b) -> L [(match a with Refused -> N | Ok l -> pairs l); pairs b])
   | "bit_unpack", [a; b] -> L [vzl (bit_unpack (zl a) (zi b)); vzl (zl a)]
   | "bit_get", [a; b; idx] ->
       let spec = (try vzl (List.map (fun i -> let n = List.length (zl a) in let j = small_of_z i in
@@ -137,6 +142,8 @@ let dispatch op args = match op, args with
       L [(match m with Refused -> N | Ok (a, b) -> L [L (List.map vzl a); L (List.map vzl b)]); L [L (List.map vzl s1); L (List.map vzl s2)]]
   | "nonzero", [x] -> let ((a, b), (c, d)) = op_nonzero (zll x) in L [L [vzl a; vzl b]; L [vzl c; vzl d]]
   | "subset", [x; L m] -> let (md, sp) = op_subset (zll x) (List.map bl m) in L [vrows md; L (List.map vzl sp)]
+  | "rslice1d", [x; st; en] -> let (md, sp) = op_rslice1d (zl x) (zl st) (zl en) in L [vrows md; L (List.map vzl sp)]
+  | "rslice2d", [x; w; st; en] -> let (md, sp) = op_rslice2d (zll x) (zi w) (zl st) (zl en) in L [vrows md; L (List.map vzl sp)]
   | "rslice", [x; st; en] -> let (md, sp) = op_rslice (zll x) (zl st) (zl en) in L [vrows md; L (List.map vzl sp)]
   | "padded", [x; fill; left] -> let (md, sp) = op_padded (zll x) (zi fill) (zi left <> Z0) in L [vrows md; L (List.map vzl sp)]
   | "colsum", [x] -> let (md, sp) = op_colsum (zll x) in L [vzl md; vzl sp]
@@ -201,6 +208,7 @@ let dispatch op args = match op, args with
       let s = (match rsel r with RMany s -> s | _ -> failwith "rows") in
       L [vrows (dc_select (zll o) s); vrows (dc_select_spec (zll o) s)]
   | "dc_item", [o; i] -> let f = function Refused -> N | Ok l -> vzl l in L [f (dc_item (zll o) (zi i)); f (dc_item_spec (zll o) (zi i))]
+  | "dc_iter", [o] -> let f = function Refused -> N | Ok l -> vzl l in L [L (List.map f (dc_iter (zll o))); L (List.map vzl (dc_entries (zll o)))]
   | "dc_eq", [a; b] -> let r = I (if dc_eq (zll a) (zll b) then Zpos XH else Z0) in L [r; I (if zll a = zll b then Zpos XH else Z0)]
   | "dc_concat", [L os] -> let f l = L (List.map vzl l) in L [f (dc_concat (List.map zll os)); f (dc_concat_spec (List.map zll os))]
   | "varlen", [L blocks] -> L (List.map vzl (varlen_concat (List.map zll blocks)))
